@@ -2,8 +2,6 @@ package fixtures
 
 import (
 	"strings"
-
-	"github.com/alecthomas/participle/v2"
 )
 
 // Ported from /repo/_examples/simpleexpr/main.go: a simple expression parser that does not capture
@@ -27,7 +25,7 @@ type simpleexprValue struct {
 	SubExpression *simpleexprExpr `| "(" @@ ")" `
 }
 
-var simpleexprParser = participle.MustBuild[simpleexprExpr]()
+var simpleexprParser = mustBuild[simpleexprExpr]()
 
 func init() {
 	f := Register("simpleexpr", simpleexprParser, nil,
